@@ -151,7 +151,17 @@ Inductive op :=
                                   the acknowledgement of the final status report is outstanding *)
 | OResumeBegin (k : N)         (* resumption up to Sigma2_Resume: slot updated; SigmaFinished outstanding *)
 | OFinishFull (s : N)          (* the acknowledgement arrives: the handler releases slot s *)
-| OFinishResume (s : N).       (* SigmaFinished arrives: slot s released, the record rotated *)
+| OFinishResume (s : N)        (* SigmaFinished arrives: slot s released, the record rotated *)
+(* a subscription that gets into the table AFTER the removal broadcast of its fabric; each of
+   these ends with the purge phase of the reporter, which the acceptance of a subscription wakes *)
+| OSubscribeDue (s : N)        (* a SubscribeRequest (wildcard events: no access check) arrives on CASE
+                                  session s when the fail-safe timer is due: [handle] runs the timeout
+                                  check first (the expiry keeps s, expired, for the answer), then accepts
+                                  the subscription on s *)
+| OSubscribeRemove (s : N) (i : N).
+                               (* RemoveFabric(i) is invoked on CASE session s while a subscription
+                                  (as [OSubscribe]) is being primed on s; then the priming completes
+                                  and the subscription is committed *)
 
 Inductive status :=
 | StOk | StGone | StAccess | StFsReq | StBusy | StFail | StConstraint | StMissingCsr
@@ -457,6 +467,45 @@ Definition boot (fx : fixes) (st : state) : state :=
   mkState fabs fabs [] recs recs subs Idle (st_root st)
           (st_ninc st) (st_nsid st) (st_nrid st) (st_nsub st).
 
+(** ** [RemoveFabric(i)] arriving on session [s] (after the session lookup) *)
+Definition remove_fabric (fx : fixes) (st : state) (s : session) (i : N) : state * status :=
+  (* not a fabric-scoped command: a PASE session may remove a fabric, too *)
+  if negb (allowed st s) then (st, StAccess)
+  else if i =? 0 then (st, StConstraint)
+  else match fget i (st_fabs st) with
+  | None => (st, StNotFound)
+  | Some _ =>
+    let keep := if s_fab s =? i then Some (s_id s) else None in
+    let st1 :=
+      mkState (fdel i (st_fabs st)) (fdel i (st_kvfabs st))
+              (remove_for_fabric i keep (st_sess st))
+              (recs_drop i (st_recs st)) (st_kvrecs st) (st_subs st)
+              (st_fs st) (st_root st) (st_ninc st) (st_nsid st) (st_nrid st) (st_nsub st) in
+    (drop_bound fx i st1, StOk)
+  end.
+
+(** the purge phase of the reporter: subscriptions whose fabric index is not in the table go *)
+Definition purge (st : state) : state :=
+  set_subs st (filter (fun u => has_fab (st_fabs st) (u_fab u)) (st_subs st)).
+
+(** a subscription is committed for the session named [sid] as it is now in the table
+    (whatever its flags: the exchange it arrived on was accepted earlier), then the reporter,
+    woken by the acceptance, purges *)
+Definition commit_sub (st : state) (sid : N) : state :=
+  match sget sid (st_sess st) with
+  | None => st
+  | Some s =>
+    if Nat.leb MAX_SUBS (length (st_subs st)) then st
+    else
+      purge (mkState (st_fabs st) (st_kvfabs st) (st_sess st) (st_recs st) (st_kvrecs st)
+                     (st_subs st ++ [mkSub (st_nsub st) (s_fab s) (s_node s) (s_inc s)])
+                     (st_fs st) (st_root st) (st_ninc st) (st_nsid st) (st_nrid st)
+                     (st_nsub st + 1))
+  end.
+
+Definition is_case (s : session) : bool :=
+  match s_mode s with MCase => true | _ => false end.
+
 (** ** One operation *)
 Definition step_fx (fx : fixes) (st : state) (o : op) : state * status :=
   match o with
@@ -507,21 +556,7 @@ Definition step_fx (fx : fixes) (st : state) (o : op) : state * status :=
   | ORemove sid i =>
     match sess_ctx st sid with
     | None => (st, StGone)
-    | Some s =>
-      (* not a fabric-scoped command: a PASE session may remove a fabric, too *)
-      if negb (allowed st s) then (st, StAccess)
-      else if i =? 0 then (st, StConstraint)
-      else match fget i (st_fabs st) with
-      | None => (st, StNotFound)
-      | Some _ =>
-        let keep := if s_fab s =? i then Some (s_id s) else None in
-        let st1 :=
-          mkState (fdel i (st_fabs st)) (fdel i (st_kvfabs st))
-                  (remove_for_fabric i keep (st_sess st))
-                  (recs_drop i (st_recs st)) (st_kvrecs st) (st_subs st)
-                  (st_fs st) (st_root st) (st_ninc st) (st_nsid st) (st_nrid st) (st_nsub st) in
-        (drop_bound fx i st1, StOk)
-      end
+    | Some s => remove_fabric fx st s i
     end
   | OTimeout => (expire fx st None, StOk)
   | OArm0 sid =>
@@ -570,8 +605,7 @@ Definition step_fx (fx : fixes) (st : state) (o : op) : state * status :=
     end
   | OPersist => (set_kvrecs st (st_recs st), StOk)
   | ORestart => (boot fx st, StOk)
-  | OReport =>
-    (set_subs st (filter (fun u => has_fab (st_fabs st) (u_fab u)) (st_subs st)), StOk)
+  | OReport => (purge st, StOk)
   | ORequest sid k =>
     match sess_ctx st sid with
     | None => (st, StGone)
@@ -638,6 +672,23 @@ Definition step_fx (fx : fixes) (st : state) (o : op) : state * status :=
       if s_res s
       then (new_record (set_sess st (release sid (st_sess st))) (s_fab s) (s_node s) (s_inc s), StOk)
       else (st, StFail)
+    end
+  | OSubscribeDue sid =>
+    match sess_ctx st sid with
+    | None => (st, StGone)
+    | Some s =>
+      if negb (is_case s) then (st, StFail)
+      else (commit_sub (expire fx st (Some (s_id s))) sid, StOk)
+    end
+  | OSubscribeRemove sid i =>
+    match sess_ctx st sid with
+    | None => (st, StGone)
+    | Some s =>
+      if negb (is_case s) then (st, StFail)
+      else if negb (can_view st s) then (st, StFail)
+      else
+        let '(st1, r) := remove_fabric fx st s i in
+        (commit_sub st1 sid, r)
     end
   end.
 
